@@ -2,6 +2,7 @@ package padding
 
 import (
 	"crypto/cipher"
+	"errors"
 	"io"
 )
 
@@ -14,17 +15,23 @@ func P7BlockDecrypt(decrypter cipher.BlockMode, in io.Reader, out io.Writer) err
 	bufOut := make([]byte, 1024)
 	p7Out := NewPKCS7PaddingWriter(out, decrypter.BlockSize())
 	for {
-		n, err := in.Read(bufIn)
-		if err != nil && err != io.EOF {
+		// the source may return any number of bytes per call: collect whole blocks
+		n, err := io.ReadFull(in, bufIn)
+		if err != nil && err != io.EOF && err != io.ErrUnexpectedEOF {
 			return err
 		}
-		if n == 0 {
-			break
+		if n%decrypter.BlockSize() != 0 {
+			return errors.New("padding: ciphertext is not a multiple of the block size")
 		}
-		decrypter.CryptBlocks(bufOut, bufIn[:n])
-		_, err = p7Out.Write(bufOut[:n])
+		if n > 0 {
+			decrypter.CryptBlocks(bufOut, bufIn[:n])
+			if _, werr := p7Out.Write(bufOut[:n]); werr != nil {
+				return werr
+			}
+		}
 		if err != nil {
-			return err
+			// io.EOF or io.ErrUnexpectedEOF: the source is exhausted
+			break
 		}
 	}
 	return p7Out.Final()
